@@ -2,7 +2,7 @@
    every oracle it answers within parse_fuel, never reaches a fault site, never reads beyond the end token, and a
    failure is a parse error located at the lexer's give-up position or at a token of the stream. *)
 From Coq Require Import ZArith NArith Bool List Lia PeanoNat.
-From PcoreV Require Import Model.Base Model.Lexer Model.Parser Proofs.LexerProofs.
+From PcoreV Require Import Model.Base Model.Lexer Model.Parser Proofs.LexerProofs Proofs.LexerColumns.
 Import ListNotations.
 Open Scope Z_scope.
 
@@ -241,10 +241,591 @@ Section Total.
   Proof.
     intros HSI Hl Hv. eapply okres_bind; [apply c_add_spec; auto|].
     intros st' (HSI' & Hss & fr & rest & E1 & E2). cbn.
-    repeat split; auto.
-    - eapply same_stream_live; eauto.
-    - destruct Hss as (Ht & _). unfold toklen. rewrite Ht. lia.
-    - left. split; [destruct Hss as (_ & _ & Hv'); congruence|]. exists v, fr, rest. auto.
+    split; [exact HSI'|]. split; [eapply same_stream_live; eauto|].
+    split; [destruct Hss as (Ht & _); unfold toklen; rewrite Ht; lia|].
+    left. split; [destruct Hss as (_ & _ & Hv'); congruence|]. exists v, fr, rest. auto.
+  Qed.
+
+  Lemma SI_set_v st v : SI st -> SI (set_v st v).
+  Proof. unfold SI. cbn. auto. Qed.
+  Lemma live_set_v st v : live st -> live (set_v st v).
+  Proof. unfold live. cbn. auto. Qed.
+
+  Lemma spec_all_0 : spec_all 0.
+  Proof. repeat split; red; intros; lia. Qed.
+
+  Lemma step_elem n : spec_all n -> spec_elem (S n).
+  Proof.
+    intros (IHe & IHh & IHhl & IHa & IHal & IHt) st t HSI Hlive Hv Hfuel.
+    cbn [element].
+    destruct (pt_kind t) eqn:Ek;
+      try (cbn; split; reflexivity);
+      try (assert (Hl : live st) by (apply Hlive; discriminate)).
+    - (* name *)
+      cbn. split; [apply SI_set_v; auto|]. split; [apply live_set_v; auto|].
+      split; [unfold toklen; cbn; lia|]. right. split; [eexists; reflexivity|reflexivity].
+    - (* identifier *) apply add_value_elem; auto.
+    - (* integer *) destruct (parse_int (pt_text t)); [apply add_value_elem; auto|apply perr_ok; auto].
+    - (* float *) destruct (pf (pt_text t)); [apply add_value_elem; auto|apply perr_ok; auto].
+    - (* regexp *) destruct (rx (pt_text t)); [apply add_value_elem; auto|apply perr_ok; auto].
+    - (* string *) apply add_value_elem; auto.
+    - (* [ *)
+      eapply okres_bind; [apply IHa; auto; [discriminate|lia]|].
+      intros s (HSI' & Hl' & Hv' & Hlen & l & fr & rest & E1 & E2). cbn.
+      split; [exact HSI'|]. split; [exact Hl'|]. split; [exact Hlen|].
+      left. split; [exact Hv'|]. exists (PArr l), fr, rest. auto.
+    - (* { *)
+      eapply okres_bind; [apply IHh; auto; lia|].
+      intros s (HSI' & Hl' & Hv' & Hlen & es & fr & rest & E1 & E2). cbn.
+      split; [exact HSI'|]. split; [exact Hl'|]. split; [exact Hlen|].
+      left. split; [exact Hv'|]. exists (PHash es), fr, rest. auto.
+    - (* ( *)
+      eapply okres_bind; [apply IHa; auto; [discriminate|lia]|].
+      intros s (HSI' & Hl' & Hv' & Hlen & l & fr & rest & E1 & E2). cbn.
+      split; [exact HSI'|]. split; [exact Hl'|]. split; [exact Hlen|].
+      left. split; [exact Hv'|]. exists (PArr l), fr, rest. auto.
+  Qed.
+
+  Lemma SI_coll_cons st : SI st -> exists fr rest, ps_coll st = fr :: rest.
+  Proof. intros (Hc & _). destruct (ps_coll st); [contradiction|eauto]. Qed.
+
+  (* element followed by handleTypeArgs pushes exactly one value *)
+  Lemma combine_pushed st1 st2 st3 :
+    ((ps_v st2 = None /\ pushed st1 st2) \/ ((exists nm, ps_v st2 = Some nm) /\ ps_coll st2 = ps_coll st1)) ->
+    match ps_v st2 with None => ps_coll st3 = ps_coll st2 | Some _ => pushed st2 st3 end ->
+    pushed st1 st3.
+  Proof.
+    intros [[Hv (v & fr & rest & E1 & E2)]|[[nm Hv] Ec]] H; rewrite Hv in H.
+    - exists v, fr, rest. split; congruence.
+    - destruct H as (v & fr & rest & E1 & E2). exists v, fr, rest. split; congruence.
+  Qed.
+
+  Lemma step_hash n : spec_all n -> spec_hash (S n).
+  Proof.
+    intros (IHe & IHh & IHhl & IHa & IHal & IHt) st HSI Hlive Hv Hfuel.
+    cbn [hash].
+    destruct (SI_coll_cons _ HSI) as (parent & rest & Ec).
+    eapply okres_bind; [apply c_begin_spec; auto|].
+    intros st1 (HSI1 & Hss1 & Ec1). cbv beta.
+    assert (Hl1 : live st1) by (eapply same_stream_live; eauto).
+    destruct Hss1 as (Ht1 & He1 & Hv1).
+    eapply okres_bind.
+    { apply IHhl; auto; [congruence| |unfold toklen in *; rewrite Ht1; lia].
+      exists [], (ps_coll st). split; auto. }
+    intros st2 (HSI2 & Hl2 & Hv2 & Hlen2 & fr' & Ec2 & Hev). cbv beta.
+    rewrite Ec1 in Ec2. cbn [tl] in Ec2. rewrite Ec in Ec2.
+    eapply okres_weaken; [eapply c_end_hash_spec; eauto|].
+    intros st3 (HSI3 & Hss3 & es & Ec3).
+    split; [exact HSI3|]. split; [eapply same_stream_live; eauto|].
+    destruct Hss3 as (Ht3 & He3 & Hv3).
+    split; [congruence|]. split; [unfold toklen in *; rewrite Ht3; rewrite Ht1 in Hlen2; lia|].
+    exists es, parent, rest. auto.
+  Qed.
+
+  Lemma step_hloop n : spec_all n -> spec_hloop (S n).
+  Proof.
+    intros (IHe & IHh & IHhl & IHa & IHal & IHt) st HSI Hlive Hv (fr0 & rest0 & Ec0 & Hev0) Hfuel.
+    cbn [hash_loop].
+    eapply okres_bind; [apply p_next_spec; auto|].
+    intros [t st1] (HSI1 & Et & Ec1 & Hv1 & Hl1). cbv beta iota.
+    assert (Hlen1 : toklen st = S (toklen st1)) by (unfold toklen; rewrite Et; reflexivity).
+    eapply okres_bind; [apply IHe; auto; [congruence|lia]|].
+    intros [tk st2] Hpe. cbv beta iota. destruct tk as [tk|].
+    { destruct Hpe as [-> ->]. destruct (is_kind t TRBrace) eqn:Ek; [|apply perr_ok; auto].
+      apply is_kind_true in Ek. cbn.
+      split; [exact HSI1|]. split; [apply Hl1; congruence|]. split; [congruence|]. split; [lia|].
+      exists fr0. rewrite Ec1, Ec0. auto. }
+    destruct Hpe as (HSI2 & Hl2 & Hlen2 & Hcase).
+    eapply okres_bind; [apply IHt; auto; lia|].
+    intros [tk st3] (HSI3 & Hl3 & Hv3 & Hlen3 & Hc3). cbv beta iota.
+    pose proof (combine_pushed _ _ _ Hcase Hc3) as Hp13.
+    destruct (is_kind tk TRocket) eqn:Ek; cbn [negb]; [|apply perr_ok; auto].
+    apply is_kind_true in Ek.
+    assert (Hl3' : live st3) by (apply Hl3; congruence).
+    eapply okres_bind; [apply p_next_spec; auto|].
+    intros [t2 st4] (HSI4 & Et4 & Ec4 & Hv4 & Hl4). cbv beta iota.
+    assert (Hlen4 : toklen st3 = S (toklen st4)) by (unfold toklen; rewrite Et4; reflexivity).
+    eapply okres_bind; [apply IHe; auto; [congruence|lia]|].
+    intros [tk2 st5] Hpe2. cbv beta iota. destruct tk2 as [tk2|].
+    { destruct Hpe2 as [-> ->]. apply perr_ok; auto. }
+    destruct Hpe2 as (HSI5 & Hl5 & Hlen5 & Hcase5).
+    eapply okres_bind; [apply IHt; auto; lia|].
+    intros [tk3 st6] (HSI6 & Hl6 & Hv6 & Hlen6 & Hc6). cbv beta iota.
+    pose proof (combine_pushed _ _ _ Hcase5 Hc6) as Hp46.
+    (* the frame after key and value *)
+    assert (Hfr6 : exists v1 v2, ps_coll st6 = (v2 :: v1 :: fr0) :: rest0).
+    { destruct Hp13 as (v1 & f1 & r1 & E1 & E2). destruct Hp46 as (v2 & f2 & r2 & E3 & E4).
+      rewrite Ec1, Ec0 in E1. inversion E1; subst f1 r1.
+      rewrite Ec4, E2 in E3. inversion E3; subst f2 r2. eauto. }
+    destruct Hfr6 as (v1 & v2 & Ec6).
+    destruct (is_kind tk3 TRBrace) eqn:Ek3.
+    { apply is_kind_true in Ek3. cbn.
+      split; [exact HSI6|]. split; [apply Hl6; congruence|]. split; [exact Hv6|]. split; [lia|].
+      exists (v2 :: v1 :: fr0). rewrite Ec6, Ec0. split; auto. }
+    destruct (is_kind tk3 TComma) eqn:Ek4; [|apply perr_ok; auto].
+    apply is_kind_true in Ek4.
+    eapply okres_weaken.
+    { apply IHhl; auto; [apply Hl6; congruence| |lia]. exists (v2 :: v1 :: fr0), rest0. split; auto. }
+    intros st7 (HSI7 & Hl7 & Hv7 & Hlen7 & fr7 & Ec7 & Hev7).
+    split; [exact HSI7|]. split; [exact Hl7|]. split; [exact Hv7|]. split; [lia|].
+    exists fr7. rewrite Ec7, Ec6, Ec0. auto.
+  Qed.
+
+  Lemma step_array n : spec_all n -> spec_array (S n).
+  Proof.
+    intros (IHe & IHh & IHhl & IHa & IHal & IHt) close st Hclose HSI Hlive Hv Hfuel.
+    cbn [array].
+    destruct (SI_coll_cons _ HSI) as (parent & rest & Ec).
+    eapply okres_bind; [apply c_begin_spec; auto|].
+    intros st1 (HSI1 & Hss1 & Ec1). cbv beta.
+    assert (Hl1 : live st1) by (eapply same_stream_live; eauto).
+    destruct Hss1 as (Ht1 & He1 & Hv1).
+    eapply okres_bind.
+    { apply IHal; auto; [congruence|unfold toklen in *; rewrite Ht1; lia]. }
+    intros [st2 ah] (HSI2 & Hl2 & Hv2 & Hlen2 & fr' & Ec2). cbv beta iota.
+    rewrite Ec1 in Ec2. cbn [tl] in Ec2. rewrite Ec in Ec2.
+    eapply okres_bind; [eapply c_end_array_spec; eauto|].
+    intros st3 (HSI3 & Hss3 & Ec3). cbv beta.
+    assert (Hl3 : live st3) by (eapply same_stream_live; eauto).
+    destruct Hss3 as (Ht3 & He3 & Hv3).
+    assert (Hlen3 : (toklen st3 <= toklen st)%nat) by (unfold toklen in *; rewrite Ht3; rewrite Ht1 in Hlen2; lia).
+    destruct ah.
+    - eapply okres_bind; [apply c_pop_spec; auto|].
+      intros [v st4] (HSI4 & Hss4 & Hpop). cbv beta iota.
+      destruct Hpop as [(f4 & r4 & E1 & E2)|(_ & _ & r4 & E1)]; [|rewrite Ec3 in E1; discriminate].
+      rewrite Ec3 in E1. inversion E1; subst v f4 r4.
+      eapply okres_weaken; [apply c_add_spec; auto|].
+      intros st5 (HSI5 & Hss5 & f5 & r5 & E3 & E4).
+      rewrite E2 in E3. inversion E3; subst f5 r5.
+      pose proof (same_stream_trans _ _ _ Hss4 Hss5) as Hss35.
+      split; [exact HSI5|]. split; [eapply same_stream_live; eauto|].
+      destruct Hss35 as (Ht5 & He5 & Hv5).
+      split; [congruence|]. split; [unfold toklen in *; rewrite Ht5; exact Hlen3|].
+      eexists _, parent, rest. split; [exact Ec|exact E4].
+    - cbn. split; [exact HSI3|]. split; [exact Hl3|]. split; [congruence|]. split; [exact Hlen3|].
+      eexists _, parent, rest. split; [exact Ec|exact Ec3].
+  Qed.
+
+  (* the hash entry block of the array loop, parser.go:207-212 *)
+  Lemma rock_block st3 rl ah :
+    SI st3 ->
+    okres (fun r => let '(st4, _) := r in
+             SI st4 /\ same_stream st3 st4 /\ exists fr', ps_coll st4 = fr' :: tl (ps_coll st3))
+          (if is_nil rl then POk (st3, ah)
+           else pbind (c_pop st3) (fun pat => let '(v, s) := pat in
+                  if wrap_entry_ok rl v then pbind (c_add (PEntry rl v) s) (fun s' => POk (s', true))
+                  else perr s)).
+  Proof.
+    intros HSI. destruct (is_nil rl).
+    - cbn. split; [exact HSI|]. split; [repeat split|].
+      destruct (SI_coll_cons _ HSI) as (fr & rest & Ec). rewrite Ec. eauto.
+    - eapply okres_bind; [apply c_pop_spec; auto|].
+      intros [v s] (HSIs & Hss & Hpop). cbv beta iota.
+      destruct (wrap_entry_ok rl v); [|apply perr_ok; auto].
+      eapply okres_bind; [apply c_add_spec; auto|].
+      intros s' (HSI' & Hss' & f5 & r5 & E3 & E4). cbn.
+      split; [exact HSI'|]. split; [eapply same_stream_trans; eauto|].
+      destruct Hpop as [(f4 & r4 & E1 & E2)|(_ & -> & r4 & E1)].
+      + rewrite E2 in E3. inversion E3; subst f5 r5. rewrite E1, E4. cbn. eauto.
+      + rewrite E1 in E3. inversion E3; subst f5 r5. rewrite E1, E4. cbn. eauto.
+  Qed.
+
+  Lemma step_aloop n : spec_all n -> spec_aloop (S n).
+  Proof.
+    intros (IHe & IHh & IHhl & IHa & IHal & IHt) close st rl ah Hclose HSI Hlive Hv Hfuel.
+    cbn [array_loop].
+    eapply okres_bind; [apply p_next_spec; auto|].
+    intros [t st1] (HSI1 & Et & Ec1 & Hv1 & Hl1). cbv beta iota.
+    assert (Hlen1 : toklen st = S (toklen st1)) by (unfold toklen; rewrite Et; reflexivity).
+    eapply okres_bind; [apply IHe; auto; [congruence|lia]|].
+    intros [tk st2] Hpe. cbv beta iota. destruct tk as [tk|].
+    { destruct Hpe as [-> ->]. destruct (is_kind t close) eqn:Ek; [|apply perr_ok; auto].
+      apply is_kind_true in Ek. cbn.
+      split; [exact HSI1|]. split; [apply Hl1; congruence|]. split; [congruence|]. split; [lia|].
+      destruct (SI_coll_cons _ HSI) as (fr & rest & Ec). rewrite Ec1, Ec. cbn. eauto. }
+    destruct Hpe as (HSI2 & Hl2 & Hlen2 & Hcase).
+    eapply okres_bind; [apply IHt; auto; lia|].
+    intros [tk st3] (HSI3 & Hl3 & Hv3 & Hlen3 & Hc3). cbv beta iota.
+    pose proof (combine_pushed _ _ _ Hcase Hc3) as Hp13.
+    assert (Htl3 : tl (ps_coll st3) = tl (ps_coll st)).
+    { destruct Hp13 as (v1 & f1 & r1 & E1 & E2). rewrite E2. rewrite Ec1 in E1. rewrite E1. reflexivity. }
+    eapply okres_bind; [apply rock_block; auto|].
+    intros [st4 ah'] (HSI4 & Hss4 & fr4 & Ec4). cbv beta iota.
+    destruct Hss4 as (Ht4 & He4 & Hv4).
+    assert (Hl4 : pt_kind tk <> TEnd -> live st4).
+    { intros Hk. eapply same_stream_live; [|apply Hl3; auto]. repeat split; auto. }
+    assert (Hlen4 : toklen st4 = toklen st3) by (unfold toklen; rewrite Ht4; reflexivity).
+    destruct (is_kind tk close) eqn:Ek.
+    { apply is_kind_true in Ek. cbn.
+      split; [exact HSI4|]. split; [apply Hl4; congruence|]. split; [congruence|]. split; [lia|].
+      exists fr4. rewrite Ec4. congruence. }
+    destruct (is_kind tk TComma) eqn:Ek2.
+    { apply is_kind_true in Ek2.
+      eapply okres_weaken; [apply IHal; auto; [apply Hl4; congruence|congruence|lia]|].
+      intros [st5 ah5] (HSI5 & Hl5 & Hv5 & Hlen5 & fr5 & Ec5).
+      split; [exact HSI5|]. split; [exact Hl5|]. split; [exact Hv5|]. split; [lia|].
+      exists fr5. rewrite Ec5, Ec4. cbn. congruence. }
+    destruct (is_kind tk TRocket) eqn:Ek3; [|apply perr_ok; auto].
+    apply is_kind_true in Ek3.
+    eapply okres_bind; [apply c_pop_spec; auto|].
+    intros [v st5] (HSI5 & Hss5 & Hpop). cbv beta iota.
+    assert (Hl5 : live st5).
+    { eapply same_stream_live; eauto. apply Hl4. congruence. }
+    destruct Hss5 as (Ht5 & He5 & Hv5).
+    assert (Htl5 : tl (ps_coll st5) = tl (ps_coll st4)).
+    { destruct Hpop as [(f5 & r5 & E1 & E2)|(_ & -> & _)]; [rewrite E1, E2|]; reflexivity. }
+    eapply okres_weaken; [apply IHal; auto; [congruence|unfold toklen in *; rewrite Ht5; lia]|].
+    intros [st6 ah6] (HSI6 & Hl6 & Hv6 & Hlen6 & fr6 & Ec6).
+    split; [exact HSI6|]. split; [exact Hl6|]. split; [exact Hv6|].
+    split; [unfold toklen in *; rewrite Ht5 in Hlen6; lia|].
+    exists fr6. rewrite Ec6, Htl5, Ec4. cbn. congruence.
+  Qed.
+
+  (* after the argument list of a type name has been replaced by the value made of it: read the next token *)
+  Lemma hta_finish st st4 fr rest (v : pv) :
+    ps_coll st = fr :: rest -> (exists nm, ps_v st = Some nm) ->
+    SI st4 -> live st4 -> ps_v st4 = None -> (toklen st4 < toklen st)%nat -> ps_coll st4 = fr :: rest ->
+    okres (post_hta st) (pbind (c_add v st4) (fun st5 => p_next st5)).
+  Proof.
+    intros Ec (nm & Hv) HSI4 Hl4 Hv4 Hlen4 Ec4.
+    eapply okres_bind; [apply c_add_spec; auto|].
+    intros st5 (HSI5 & Hss5 & f5 & r5 & E1 & E2). cbv beta.
+    rewrite Ec4 in E1. inversion E1; subst f5 r5.
+    assert (Hl5 : live st5) by (eapply same_stream_live; eauto).
+    destruct Hss5 as (Ht5 & He5 & Hv5).
+    eapply okres_weaken; [apply p_next_spec; auto|].
+    intros [tk st6] (HSI6 & Et6 & Ec6 & Hv6 & Hl6).
+    split; [exact HSI6|]. split; [exact Hl6|]. split; [congruence|].
+    split; [unfold toklen in *; rewrite Et6 in Ht5; rewrite <- Ht5 in Hlen4; cbn [length] in Hlen4; lia|].
+    rewrite Hv. exists v, fr, rest. split; [exact Ec|congruence].
+  Qed.
+
+  Lemma step_hta n : spec_all n -> spec_hta (S n).
+  Proof.
+    intros (IHe & IHh & IHhl & IHa & IHal & IHt) st HSI Hlive Hfuel.
+    cbn [handle_type_args].
+    eapply okres_bind; [apply p_next_spec; auto|].
+    intros [tk st1] (HSI1 & Et & Ec1 & Hv1 & Hl1). cbv beta iota.
+    assert (Hlen1 : toklen st = S (toklen st1)) by (unfold toklen; rewrite Et; reflexivity).
+    destruct (ps_v st1) as [tn|] eqn:Ev1.
+    2: { cbn. split; [exact HSI1|]. split; [exact Hl1|]. split; [exact Ev1|]. split; [lia|].
+         rewrite <- Hv1. exact Ec1. }
+    destruct (SI_coll_cons _ HSI) as (fr & rest & Ec).
+    assert (Hsome : exists nm, ps_v st = Some nm) by (exists tn; congruence).
+    pose proof (SI_set_v st1 None HSI1) as HSI2.
+    assert (Hlen2 : toklen (set_v st1 None) = toklen st1) by reflexivity.
+    assert (Ec2 : ps_coll (set_v st1 None) = fr :: rest) by (cbn; congruence).
+    assert (Hdefault : okres (post_hta st)
+              (pbind (c_add (PType tn None) (set_v st1 None)) (fun st3 => POk (tk, st3)))).
+    { eapply okres_bind; [apply c_add_spec; auto|].
+      intros st3 (HSI3 & Hss3 & f3 & r3 & E1 & E2). cbn.
+      rewrite Ec2 in E1. inversion E1; subst f3 r3.
+      split; [exact HSI3|].
+      split; [intros Hk; eapply same_stream_live; [exact Hss3|apply live_set_v; auto]|].
+      destruct Hss3 as (Ht3 & He3 & Hv3).
+      split; [rewrite Hv3; reflexivity|].
+      split; [unfold toklen in *; rewrite Ht3; cbn; lia|].
+      destruct Hsome as (nm & ->). exists (PType tn None), fr, rest. auto. }
+    destruct (pt_kind tk) eqn:Ek; try exact Hdefault;
+      (assert (Hl2 : live (set_v st1 None)) by (apply live_set_v; apply Hl1; discriminate)).
+    - (* [ *)
+      eapply okres_bind; [apply IHa; auto; [discriminate|lia]|].
+      intros st3 (HSI3 & Hl3 & Hv3 & Hlen3 & l & f3 & r3 & E1 & E2). cbv beta.
+      rewrite Ec2 in E1. inversion E1; subst f3 r3.
+      eapply okres_bind; [apply c_pop_spec; auto|].
+      intros [v st4] (HSI4 & Hss4 & Hpop). cbv beta iota.
+      destruct Hpop as [(f4 & r4 & E3 & E4)|(_ & _ & r4 & E3)]; [|rewrite E2 in E3; discriminate].
+      rewrite E2 in E3. inversion E3; subst v f4 r4.
+      assert (Hl4 : live st4) by (eapply same_stream_live; eauto).
+      destruct Hss4 as (Ht4 & He4 & Hv4).
+      destruct l as [|x l]; [apply perr_ok; auto|].
+      eapply hta_finish; eauto; [congruence|unfold toklen in *; rewrite Ht4; lia].
+    - (* { *)
+      eapply okres_bind; [apply IHh; auto; lia|].
+      intros st3 (HSI3 & Hl3 & Hv3 & Hlen3 & es & f3 & r3 & E1 & E2). cbv beta.
+      rewrite Ec2 in E1. inversion E1; subst f3 r3.
+      eapply okres_bind; [apply c_pop_spec; auto|].
+      intros [v st4] (HSI4 & Hss4 & Hpop). cbv beta iota.
+      destruct Hpop as [(f4 & r4 & E3 & E4)|(_ & _ & r4 & E3)]; [|rewrite E2 in E3; discriminate].
+      rewrite E2 in E3. inversion E3; subst v f4 r4.
+      assert (Hl4 : live st4) by (eapply same_stream_live; eauto).
+      destruct Hss4 as (Ht4 & He4 & Hv4).
+      eapply hta_finish; eauto; [congruence|unfold toklen in *; rewrite Ht4; lia].
+    - (* ( *)
+      eapply okres_bind; [apply IHa; auto; [discriminate|lia]|].
+      intros st3 (HSI3 & Hl3 & Hv3 & Hlen3 & l & f3 & r3 & E1 & E2). cbv beta.
+      rewrite Ec2 in E1. inversion E1; subst f3 r3.
+      eapply okres_bind; [apply c_pop_spec; auto|].
+      intros [v st4] (HSI4 & Hss4 & Hpop). cbv beta iota.
+      destruct Hpop as [(f4 & r4 & E3 & E4)|(_ & _ & r4 & E3)]; [|rewrite E2 in E3; discriminate].
+      rewrite E2 in E3. inversion E3; subst v f4 r4.
+      assert (Hl4 : live st4) by (eapply same_stream_live; eauto).
+      destruct Hss4 as (Ht4 & He4 & Hv4).
+      assert (Hlen4 : (toklen st4 < toklen st)%nat) by (unfold toklen in *; rewrite Ht4; lia).
+      assert (Hv4' : ps_v st4 = None) by congruence.
+      destruct (negb (str_eqb tn s_Deferred)).
+      + eapply hta_finish; eauto.
+      + destruct l as [|x l]; [apply perr_ok; auto|].
+        destruct x; try (apply perr_ok; auto).
+        eapply hta_finish; eauto.
+  Qed.
+
+  Lemma spec_all_n : forall n, spec_all n.
+  Proof.
+    induction n as [|n IH]; [apply spec_all_0|].
+    repeat split.
+    - apply step_elem; auto.
+    - apply step_hash; auto.
+    - apply step_hloop; auto.
+    - apply step_array; auto.
+    - apply step_aloop; auto.
+    - apply step_hta; auto.
+  Qed.
+
+  Definition post_parse (st st' : pstate) : Prop := SI st' /\ pushed st st'.
+
+  Lemma parse_spec n st t :
+    SI st -> (pt_kind t <> TEnd -> live st) -> ps_v st = None -> (3 * toklen st + 3 <= n)%nat ->
+    okres (post_parse st) (parse pf rx n st t).
+  Proof.
+    intros HSI Hlive Hv Hfuel.
+    destruct (spec_all_n n) as (IHe & IHh & IHhl & IHa & IHal & IHt).
+    unfold parse.
+    eapply okres_bind; [apply IHe; auto|].
+    intros [tk st1] Hpe. cbv beta iota. destruct tk as [tk|].
+    { destruct Hpe as [-> ->]. destruct (negb (is_kind t TEnd)); [apply perr_ok; auto|].
+      eapply okres_weaken; [apply c_add_spec; auto|].
+      intros st2 (HSI2 & _ & fr & rest & E1 & E2). split; [exact HSI2|]. exists PUndef, fr, rest. auto. }
+    destruct Hpe as (HSI1 & Hl1 & Hlen1 & Hcase).
+    eapply okres_bind; [apply IHt; auto; lia|].
+    intros [tk st2] (HSI2 & Hl2 & Hv2 & Hlen2 & Hc2). cbv beta iota.
+    pose proof (combine_pushed _ _ _ Hcase Hc2) as Hp02.
+    eapply okres_bind with (Q := fun r => let '(tk', st') := r in SI st' /\ (pt_kind tk' = TEnd -> pushed st st')).
+    2: { intros [tk' st'] (HSI' & Hp'). destruct (is_kind tk' TEnd) eqn:Ek; cbn [negb]; [|apply perr_ok; auto].
+         apply is_kind_true in Ek. cbn. split; auto. }
+    destruct (is_kind tk TRocket) eqn:Ek.
+    2: { cbn. split; auto. }
+    apply is_kind_true in Ek.
+    assert (Hl2' : live st2) by (apply Hl2; congruence).
+    destruct Hp02 as (v0 & fr & rest & Ec & Ec2).
+    eapply okres_bind; [apply c_pop_spec; auto|].
+    intros [key st3] (HSI3 & Hss3 & Hpop). cbv beta iota.
+    destruct Hpop as [(f3 & r3 & E1 & E2)|(_ & _ & r3 & E1)]; [|rewrite Ec2 in E1; discriminate].
+    rewrite Ec2 in E1. inversion E1; subst key f3 r3.
+    assert (Hl3 : live st3) by (eapply same_stream_live; eauto).
+    destruct Hss3 as (Ht3 & He3 & Hv3).
+    eapply okres_bind; [apply p_next_spec; auto|].
+    intros [t2 st4] (HSI4 & Et4 & Ec4 & Hv4 & Hl4). cbv beta iota.
+    assert (Hlen4 : toklen st3 = S (toklen st4)) by (unfold toklen; rewrite Et4; reflexivity).
+    assert (Hlen3 : toklen st3 = toklen st2) by (unfold toklen; rewrite Ht3; reflexivity).
+    eapply okres_bind; [apply IHe; auto; [congruence|lia]|].
+    intros [tk2 st5] Hpe2. cbv beta iota. destruct tk2 as [tk2|].
+    { destruct Hpe2 as [-> ->]. apply perr_ok; auto. }
+    destruct Hpe2 as (HSI5 & Hl5 & Hlen5 & Hcase5).
+    eapply okres_bind; [apply IHt; auto; lia|].
+    intros [tk3 st6] (HSI6 & Hl6 & Hv6 & Hlen6 & Hc6). cbv beta iota.
+    pose proof (combine_pushed _ _ _ Hcase5 Hc6) as Hp46.
+    destruct (is_kind tk3 TEnd) eqn:Ek3.
+    2: { apply is_kind_false in Ek3. cbn. split; [exact HSI6|]. intros; contradiction. }
+    eapply okres_bind; [apply c_pop_spec; auto|].
+    intros [v st7] (HSI7 & Hss7 & Hpop7). cbv beta iota.
+    destruct (wrap_entry_ok v0 v); [|apply perr_ok; auto].
+    eapply okres_bind; [apply c_add_spec; auto|].
+    intros st8 (HSI8 & Hss8 & f8 & r8 & E3 & E4). cbn.
+    split; [exact HSI8|]. intros _.
+    destruct Hp46 as (v6 & f6 & r6 & E5 & E6). rewrite Ec4, E2 in E5. inversion E5; subst f6 r6.
+    destruct Hpop7 as [(f7 & r7 & E7 & E8)|(_ & _ & r7 & E7)]; [|rewrite E6 in E7; discriminate].
+    rewrite E6 in E7. inversion E7; subst v f7 r7.
+    rewrite E8 in E3. inversion E3; subst f8 r8.
+    eexists _, fr, rest. split; [exact Ec|exact E4].
+  Qed.
+
+  Lemma finish_ok (tn : option str) st v :
+    SI st -> ps_coll st = [[v]] ->
+    okres (fun _ => True)
+      (pbind (c_value st) (fun dv =>
+         match tn with
+         | None => POk dv
+         | Some name => match named_type name dv with Some ty => POk ty | None => perr st end
+         end)).
+  Proof.
+    intros HSI Ec. unfold c_value. rewrite Ec. cbn.
+    destruct tn as [name|]; [|exact I].
+    destruct (named_type name v); [exact I|apply perr_ok; auto].
+  Qed.
+
+  Definition stream_ok (toks : list ptok) (e : lex_end) : Prop :=
+    Forall Ptok toks /\
+    match e with
+    | ELexErr l c => P l c
+    | EEnd => toks <> [] /\ pt_kind (last toks dummy_tok) = TEnd
+    | _ => False
+    end.
+
+  Lemma parse_file_ok toks e :
+    stream_ok toks e -> okres (fun _ => True) (parse_file pf rx (parse_fuel toks) toks e).
+  Proof.
+    intros (Htoks & Hend).
+    set (n := parse_fuel toks).
+    assert (HSI0 : SI (init_state toks e)).
+    { unfold SI, init_state. cbn. repeat split; auto; try discriminate.
+      destruct e; auto; tauto. }
+    assert (Hl0 : live (init_state toks e)).
+    { unfold live, init_state. cbn. destruct e; auto. }
+    assert (Hfuel : forall st, (toklen st <= length toks)%nat -> (3 * toklen st + 3 <= n)%nat).
+    { intros st H. unfold n, parse_fuel. lia. }
+    unfold parse_file. cbv zeta. fold n.
+    eapply okres_bind; [apply p_next_spec; auto|].
+    intros [t st1] (HSI1 & Et1 & Ec1 & Hv1 & Hl1). cbv beta iota.
+    assert (Hlen1 : length toks = S (toklen st1)) by (unfold toklen; cbn in Et1; rewrite Et1; reflexivity).
+    cbn in Ec1, Hv1.
+    assert (Hparse : forall st t' tn, SI st -> (pt_kind t' <> TEnd -> live st) -> ps_v st = None ->
+              ps_coll st = [[]] -> (toklen st <= length toks)%nat ->
+              okres (fun _ => True)
+                (pbind (parse pf rx n st t') (fun st5 =>
+                   pbind (c_value st5) (fun dv =>
+                     match tn with
+                     | None => POk dv
+                     | Some name => match named_type name dv with Some ty => POk ty | None => perr st5 end
+                     end)))).
+    { intros st t' tn HSI Hl Hv Ec Hlen.
+      eapply okres_bind; [apply parse_spec; auto|].
+      intros st5 (HSI5 & v & fr & rest & E1 & E2). rewrite Ec in E1. inversion E1; subst fr rest.
+      eapply finish_ok; eauto. }
+    destruct (is_kind t TIdent && str_eqb (pt_text t) s_type)%bool eqn:Etype.
+    2: { apply (Hparse st1 t None); auto. lia. }
+    apply andb_prop in Etype. destruct Etype as [Ek _]. apply is_kind_true in Ek.
+    assert (Hl1' : live st1) by (apply Hl1; congruence).
+    eapply okres_bind; [apply p_next_spec; auto|].
+    intros [t2 st2] (HSI2 & Et2 & Ec2 & Hv2 & Hl2). cbv beta iota.
+    assert (Hlen2 : toklen st1 = S (toklen st2)) by (unfold toklen; rewrite Et2; reflexivity).
+    destruct (pt_kind t2) eqn:Ek2; try (apply perr_ok; auto).
+    - (* type X = ... *)
+      assert (Hl2' : live st2) by (apply Hl2; discriminate).
+      eapply okres_bind; [apply p_next_spec; auto|].
+      intros [t3 st3] (HSI3 & Et3 & Ec3 & Hv3 & Hl3). cbv beta iota.
+      assert (Hlen3 : toklen st2 = S (toklen st3)) by (unfold toklen; rewrite Et3; reflexivity).
+      destruct (is_kind t3 TEqual) eqn:Ek3; cbn [negb]; [|apply perr_ok; auto].
+      apply is_kind_true in Ek3.
+      assert (Hl3' : live st3) by (apply Hl3; congruence).
+      eapply okres_bind; [apply p_next_spec; auto|].
+      intros [t4 st4] (HSI4 & Et4 & Ec4 & Hv4 & Hl4). cbv beta iota.
+      assert (Hlen4 : toklen st3 = S (toklen st4)) by (unfold toklen; rewrite Et4; reflexivity).
+      apply (Hparse st4 t4 (Some (pt_text t2))); auto; [congruence|congruence|lia].
+    - (* type => ... *)
+      assert (Hl2' : live st2) by (apply Hl2; discriminate).
+      eapply okres_bind; [apply p_next_spec; auto|].
+      intros [t3 st3] (HSI3 & Et3 & Ec3 & Hv3 & Hl3). cbv beta iota.
+      assert (Hlen3 : toklen st2 = S (toklen st3)) by (unfold toklen; rewrite Et3; reflexivity).
+      eapply okres_bind; [apply parse_spec; auto; [congruence|apply Hfuel; lia]|].
+      intros st4 (HSI4 & v & fr & rest & E1 & E2). cbv beta.
+      assert (Ec3' : ps_coll st3 = [[]]) by congruence.
+      rewrite Ec3' in E1. inversion E1; subst fr rest.
+      eapply okres_bind; [apply c_pop_spec; auto|].
+      intros [v' st5] (HSI5 & Hss5 & Hpop). cbv beta iota.
+      destruct Hpop as [(f5 & r5 & E3 & E4)|(_ & _ & r5 & E3)]; [|rewrite E2 in E3; discriminate].
+      rewrite E2 in E3. inversion E3; subst v' f5 r5.
+      destruct (is_nil v); [apply perr_ok; auto|].
+      eapply okres_bind; [apply c_add_spec; auto|].
+      intros st6 (HSI6 & Hss6 & f6 & r6 & E5 & E6). cbv beta.
+      rewrite E4 in E5. inversion E5; subst f6 r6.
+      eapply (finish_ok None); eauto.
   Qed.
 
 End Total.
+
+(* ParseFile over token streams, for every set P of admissible locations *)
+Theorem parse_file_total :
+  forall (pf : str -> option Z) (rx : str -> bool) (P : Z -> Z -> Prop) (toks : list ptok) (e : lex_end),
+    P 1 0 ->
+    Forall (fun t => P (pt_line t) (pt_col t - rune_count (pt_text t))) toks ->
+    match e with
+    | ELexErr l c => P l c
+    | EEnd => toks <> [] /\ pt_kind (last toks dummy_tok) = TEnd
+    | _ => False
+    end ->
+    match parse_file pf rx (parse_fuel toks) toks e with
+    | POk _ => True
+    | PErr line col => P line col
+    | PFault => False
+    | POutOfFuel => False
+    end.
+Proof. intros pf rx P toks e H10 Ht He. exact (parse_file_ok pf rx P H10 toks e (conj Ht He)). Qed.
+
+(* ------------------------------------------------------------------------------------------------ *)
+(* types.Parse on a byte string *)
+
+(* the upper bounds of pos_within *)
+Definition pos_upper (s : str) (line col : Z) : Prop :=
+  1 <= line <= 1 + count_nl s /\ col <= line_len s line + 2.
+
+Lemma pos_upper_10 s : pos_upper s 1 0.
+Proof.
+  unfold pos_upper. pose proof (count_nl_nonneg s). pose proof (line_len_nonneg s 1). lia.
+Qed.
+
+Lemma lex_stream_ok_upper ol s : stream_ok (pos_upper s) (fst (lex ol s)) (snd (lex ol s)).
+Proof.
+  destruct (lex_positions ol s) as [Htoks Herr].
+  split.
+  - eapply Forall_impl; [|exact Htoks]. intros t ((H1 & H2) & (H3 & H4)).
+    unfold Ptok, pos_upper. pose proof (rune_count_nonneg (pt_text t)). lia.
+  - pose proof (lex_terminates ol s) as Hf. pose proof (lex_no_fault ol s) as Hn.
+    pose proof (lex_shape ol s) as Hs.
+    destruct (snd (lex ol s)) eqn:E; try congruence.
+    + apply Hs. reflexivity.
+    + destruct (Herr line col eq_refl) as ((H1 & H2) & (H3 & H4)). unfold pos_upper. lia.
+Qed.
+
+(* parse_total (upper bounds): for every byte string and all oracles, Parse answers — a value, or a parse error
+   whose line is a line of the input and whose column does not exceed the length of that line + 2; never a fault
+   (raw or wrapped), never out of fuel, never a read beyond the end token. *)
+Theorem parse_total_upper : forall pf rx ol s,
+  okres (pos_upper s) (fun _ => True) (parse_string pf rx ol s).
+Proof.
+  intros pf rx ol s. unfold parse_string.
+  pose proof (lex_stream_ok_upper ol s) as H.
+  destruct (lex ol s) as [toks e]. cbn [fst snd] in H.
+  apply parse_file_ok; [apply pos_upper_10|exact H].
+Qed.
+
+Theorem parse_no_fault : forall pf rx ol s,
+  parse_string pf rx ol s <> PFault /\ parse_string pf rx ol s <> POutOfFuel.
+Proof.
+  intros pf rx ol s. pose proof (parse_total_upper pf rx ol s) as H.
+  destruct (parse_string pf rx ol s); cbn in H; split; try discriminate; contradiction.
+Qed.
+
+(* ---- the full location bound ---- *)
+
+Lemma pos_within_10 s : pos_within s 1 0.
+Proof.
+  unfold pos_within. pose proof (count_nl_nonneg s). pose proof (line_len_nonneg s 1). lia.
+Qed.
+
+Lemma lex_stream_ok ol s : stream_ok (pos_within s) (fst (lex ol s)) (snd (lex ol s)).
+Proof.
+  destruct (lex_positions ol s) as [Htoks Herr].
+  pose proof (lex_text_columns ol s) as Hcols.
+  split.
+  - rewrite Forall_forall in *. intros t Hin.
+    destruct (Htoks t Hin) as ((H1 & H2) & (H3 & H4)). specialize (Hcols t Hin). cbn beta in Hcols.
+    unfold Ptok, pos_within. pose proof (rune_count_nonneg (pt_text t)). lia.
+  - pose proof (lex_terminates ol s) as Hf. pose proof (lex_no_fault ol s) as Hn.
+    pose proof (lex_shape ol s) as Hs.
+    destruct (snd (lex ol s)) eqn:E; try congruence.
+    + apply Hs. reflexivity.
+    + exact (Herr line col eq_refl).
+Qed.
+
+(* parse_total: for every byte string and all oracles, Parse answers — a value, or a parse error whose line and
+   column lie within the input; never a fault (raw or wrapped), never out of fuel, never a read beyond the end
+   token. *)
+Theorem parse_total : forall pf rx ol s,
+  okres (pos_within s) (fun _ => True) (parse_string pf rx ol s).
+Proof.
+  intros pf rx ol s. unfold parse_string.
+  pose proof (lex_stream_ok ol s) as H.
+  destruct (lex ol s) as [toks e]. cbn [fst snd] in H.
+  apply parse_file_ok; [apply pos_within_10|exact H].
+Qed.
